@@ -131,4 +131,68 @@ theorem RArr.elemsRows_length : ∀ (lo : Int) (rows : List RArr), (RArr.elemsRo
     simp [RArr.elemsRows, RArr.sizeAllRows, RArr.elems_length r, RArr.elemsRows_length (lo + 1) rs]
 end
 
+/-! every coordinate occurs once in the map: full iteration visits no element twice -/
+
+theorem leafElems_key (xs : List Int) : ∀ lo, ∀ e ∈ leafElems lo xs, ∃ i, e.1 = [i] ∧ lo ≤ i := by
+  induction xs with
+  | nil => intro lo e he; simp [leafElems] at he
+  | cons x xs ih =>
+    intro lo e he
+    simp only [leafElems, List.mem_cons] at he
+    rcases he with rfl | he
+    · exact ⟨lo, rfl, Int.le_refl _⟩
+    · obtain ⟨i, h1, h2⟩ := ih (lo + 1) e he
+      exact ⟨i, h1, by omega⟩
+
+theorem leafElems_keys_nodup (xs : List Int) : ∀ lo, ((leafElems lo xs).map (·.1)).Nodup := by
+  induction xs with
+  | nil => intro lo; simp [leafElems]
+  | cons x xs ih =>
+    intro lo
+    simp only [leafElems, List.map_cons, List.nodup_cons]
+    refine ⟨?_, ih (lo + 1)⟩
+    intro hm
+    obtain ⟨e, he, hk⟩ := List.mem_map.1 hm
+    obtain ⟨i, h1, h2⟩ := leafElems_key xs (lo + 1) e he
+    rw [h1] at hk
+    have : i = lo := by simpa using hk
+    omega
+
+mutual
+theorem RArr.elemsRows_key : ∀ (rows : List RArr) (lo : Int), ∀ e ∈ RArr.elemsRows lo rows, ∃ i cs, e.1 = i :: cs ∧ lo ≤ i
+  | [], lo => by intro e he; simp [RArr.elemsRows] at he
+  | r :: rs, lo => by
+    intro e he
+    simp only [RArr.elemsRows, List.mem_append, List.mem_map] at he
+    rcases he with ⟨e', _, rfl⟩ | he
+    · exact ⟨lo, e'.1, rfl, Int.le_refl _⟩
+    · obtain ⟨i, cs, h1, h2⟩ := RArr.elemsRows_key rs (lo + 1) e he
+      exact ⟨i, cs, h1, by omega⟩
+end
+
+mutual
+theorem RArr.elems_keys_nodup : ∀ a : RArr, (a.elems.map (·.1)).Nodup
+  | .leaf lo xs => by simpa [RArr.elems] using leafElems_keys_nodup xs lo
+  | .node lo rows => by simpa [RArr.elems] using RArr.elemsRows_keys_nodup rows lo
+theorem RArr.elemsRows_keys_nodup : ∀ (rows : List RArr) (lo : Int), ((RArr.elemsRows lo rows).map (·.1)).Nodup
+  | [], lo => by simp [RArr.elemsRows]
+  | r :: rs, lo => by
+    simp only [RArr.elemsRows, List.map_append, List.map_map]
+    rw [List.nodup_append]
+    refine ⟨?_, RArr.elemsRows_keys_nodup rs (lo + 1), ?_⟩
+    · have h := RArr.elems_keys_nodup r
+      have : (List.map ((fun x => x.1) ∘ fun e => (lo :: e.1, e.2)) r.elems) = (r.elems.map (·.1)).map (fun c => lo :: c) := by
+        simp [List.map_map, Function.comp_def]
+      rw [this]
+      exact List.Pairwise.map (fun c => lo :: c) (fun a b hab h' => hab (by simpa using h')) h
+    · intro a ha b hb hab
+      subst hab
+      obtain ⟨e, _, rfl⟩ := List.mem_map.1 ha
+      obtain ⟨e2, he2, hk⟩ := List.mem_map.1 hb
+      obtain ⟨i, cs, h1, h2⟩ := RArr.elemsRows_key rs (lo + 1) e2 he2
+      simp only [Function.comp] at hk
+      rw [h1] at hk
+      have : i = lo := by simpa using congrArg List.head? hk
+      omega
+end
 end StirVerif.C11
